@@ -178,7 +178,13 @@ def gateObs (ws : List String) : String :=
   if kv ws "skip" == some "ports" then "skipped" else
   -- `kind=fail2`: the re-created instance answers its very first readiness check with Err as well: re-created again, never called
   let fail2 := kv ws "kind" == some "fail2"
-  let kind : Option Bool := match kv ws "kind" with | some "pending" => some false | some "fail" => some true | some "fail2" => some true | _ => none
+  -- `kind=driver`: the service becomes ready through a task its factory spawned: for the worker it is a service that is
+  -- Pending and then Ready (as `pending`); `lst=uds` / `sys=1`: another listener / host, the same worker
+  let driver := kv ws "kind" == some "driver"
+  let kind : Option Bool := match kv ws "kind" with | some "pending" => some false | some "driver" => some false | some "fail" => some true | some "fail2" => some true | _ => none
+  let hostOk := (match kv ws "lst" with | none => true | some l => l == "tcp" || (l == "uds" && (kv ws "listeners").isNone)) &&
+    (match kv ws "sys" with | none => true | some v => v == "1") && !(driver && (kv ws "stop").isSome)
+  if !hostOk then "bad-op" else
   -- `listeners=N at=K`: the gated service is the one of listener K of N: its own index, token and factory (no effect here)
   let lstOk := match kv ws "listeners", kv ws "at" with
     | none, none => true
